@@ -288,13 +288,12 @@ def availOf : Case → List Crate
   | .reg _ _ _ a => a
   | .proto _ _ _ a => a
 
-/-- ids are unique per crate (rustdoc's `index` is a map) and child id lists are duplicate free: the well-formedness
-    every theorem about a description assumes; a case violating it is not a case -/
+/-- ids are unique per crate (rustdoc's `index` is a map), crate names are distinct and child id lists are duplicate
+    free: the well-formedness every theorem about a description assumes; a case violating it is not a case -/
 def wellFormed (a : List Crate) : Bool :=
-  a.all fun c =>
-    let ids := c.items.map (·.id)
-    ids.length == ids.eraseDups.length &&
-    c.items.all fun i => i.fieldIds.length == i.fieldIds.eraseDups.length && i.variantIds.length == i.variantIds.eraseDups.length
+  cratesWF a &&
+  a.all fun c => c.items.all fun i =>
+    i.fieldIds.length == i.fieldIds.eraseDups.length && i.variantIds.length == i.variantIds.eraseDups.length
 
 def model (line : String) : String :=
   match parseCase line with
@@ -310,6 +309,9 @@ def model (line : String) : String :=
       | some k => "ok " ++ showContainer k
       | none => "missing"
 
+/-- The oracle proper judges the implementation's observation (`S.Codegen.verdict`). In addition, for every registry
+    case, the side conditions under which the theorems of Props/C20.lean apply are evaluated on the edge relation the
+    model derives from the case's description; an unmet one is reported (the theorems then say nothing about this case). -/
 def oracle (line : String) : String :=
   match line.splitOn "\t" with
   | [c, o] =>
@@ -318,7 +320,13 @@ def oracle (line : String) : String :=
     | some c =>
       if !wellFormed (availOf c) then "bad-case" else
       let obs := parseObs c o
-      if S.Codegen.ok c obs then "ok" else "reject " ++ S.Codegen.rejectKey c obs
+      if !S.Codegen.ok c obs then "reject " ++ S.Codegen.rejectKey c obs else
+      match c, loadedEdges (availOf c) (rootOf c) with
+      | .reg .., some E =>
+        match unmetHypothesis E with
+        | some h => "reject hypothesis-unmet:" ++ h
+        | none => "ok"
+      | _, _ => "ok"
   | _ => "bad-case"
 
 end Driver.Cli
